@@ -350,6 +350,19 @@ def _check_bind_exact(n):
             return False, f"task {i} is not bound with its own map (circuit {b.circuit}, expected {t.circuit.bind(maps[i])})"
         if t.circuit.free_symbols != [th]:
             return False, "input task modified"
+    # each task is bound with ITS OWN map only: a symbol that an earlier task's map binds stays free in a later task whose map does not mention it
+    if n >= 2:
+        from orquestra.quantum.circuits import RY
+        al, be = sympy.symbols("alpha beta")
+        leak_tasks = [EstimationTask(PauliSum([PauliTerm("Z0", 1.0)]), Circuit([RX(al)(0)]), 5), EstimationTask(PauliSum([PauliTerm("Z0", 1.0)]), Circuit([RX(al)(0), RY(be)(0)]), 5),
+                      EstimationTask(PauliSum([PauliTerm("Z0", 1.0)]), Circuit([RY(be)(0), RX(al)(0)]), 5)][:max(2, min(n, 3))]
+        leak_maps = [{al: 1.0}, {be: 2.0}, {}][:len(leak_tasks)]
+        lb = evaluate_estimation_circuits(leak_tasks, leak_maps)
+        for i, (t_, b_, mp) in enumerate(zip(leak_tasks, lb, leak_maps)):
+            if b_.circuit != t_.circuit.bind(mp) or set(b_.circuit.free_symbols) != set(t_.circuit.free_symbols) - set(mp):
+                return False, f"task {i} bound with {mp}: circuit {b_.circuit} (free symbols {b_.circuit.free_symbols}); another task's map leaked into it"
+        if leak_maps != [{al: 1.0}, {be: 2.0}, {}][:len(leak_tasks)]:
+            return False, "the symbol maps were modified"
     vals = calculate_exact_expectation_values(SymbolicSimulator(), bound)
     if len(vals) != n:
         return False, "wrong number of exact values"
